@@ -43,6 +43,11 @@ pub fn ignore_filter(entry: &DirEntry, ignore: &Option<Gitignore>) -> bool {
     match ignore {
         None => true,
         Some(gi) => {
+            // The root of the walk is what the .gitignore applies
+            // to; it is never itself a candidate for exclusion.
+            if entry.depth() == 0 {
+                return true;
+            }
             let path = entry.path();
             let m = gi.matched(path, path.is_dir());
             !m.is_ignore()
